@@ -94,6 +94,13 @@ func genC10(r *rand.Rand, tier string, env *Env) []Case {
 		}
 		cases = append(cases, Case{Kind: kind, Ops: []Op{{"format.file", [][]byte{args[6]}}}, Oracles: []Op{{"c10.meaning", args}, {"c09.format", [][]byte{args[6]}}}})
 	}
+	// a byte order mark at the start of a file (the file itself, an include file): three bytes of the first line
+	for _, in := range []string{"\ufeff##! comment\nfoo\nbar[0-9]+\n", "\ufeff" + hdr + "foo\n", "\ufeff##!+ i\nfoo\nbar\n", "\ufeff##!^ pre\nfoo\n", "\ufeff##!> include foo\nx\n", "\ufefffoo\nbar\n", "\ufeff\nfoo\n"} {
+		for _, incl := range []string{"a\nb\n", "\ufeff##! c\na\nb\n"} {
+			args := [][]byte{{}, {}, {}, {}, {}, {}, []byte(in), []byte("i"), []byte("foo.ra"), []byte(incl), []byte("i"), []byte("bar.ra"), []byte("c\n")}
+			cases = append(cases, Case{Kind: "byte-order-mark", Ops: []Op{{"format.file", [][]byte{args[6]}}, {"gen.run", args}}, Oracles: []Op{{"c10.meaning", args}, {"c09.format", [][]byte{args[6]}}}})
+		}
+	}
 	// whole trees: after `format --all` — whether it succeeds or gives up on some file — every rule compiles to what it
 	// compiled to before (files the formatter refuses come first, in the middle and last in the walk)
 	nTrees := 8
